@@ -414,12 +414,14 @@ func (a *A) ruleStrategyOutcome(fn *ssa.Function, checkNoDropWithoutTimeout bool
 				continue
 			}
 			seen[o.Tag] = true
-			// X (Stop observed / no channel) is an observation, S and D are outcomes: exactly one outcome,
-			// or none and Stop observed
+			// X (Stop observed / no channel) is an observation, S and D are outcomes: every path ends with
+			// exactly one outcome — a row whose Emit returns because of Stop is counted as dropped
 			nS, nD := strings.Count(o.Tag, "S"), strings.Count(o.Tag, "D")
 			switch {
 			case len(o.Tag) == 0:
-				bad = "a path returns without enqueuing the row, counting it as dropped or having observed Stop: the row vanishes uncounted"
+				bad = "a path returns without enqueuing the row or counting it as dropped: the row vanishes uncounted"
+			case nS == 0 && nD == 0:
+				bad = "a path returns after observing Stop without counting the row as dropped: input_count was incremented, the row is never processed, and processed + dropped no longer accounts for every Emit"
 			case nS > 1:
 				bad = "a path enqueues the row twice"
 			case nS > 0 && nD > 0:
@@ -427,7 +429,7 @@ func (a *A) ruleStrategyOutcome(fn *ssa.Function, checkNoDropWithoutTimeout bool
 			case nD > 1:
 				bad = "a path counts the row as dropped twice"
 			}
-			if mode == "no-timeout" && strings.Contains(o.Tag, "D") {
+			if mode == "no-timeout" && strings.Contains(o.Tag, "D") && !strings.Contains(o.Tag, "X") {
 				bad = "with blockingTimeout <= 0 a path increments input_dropped_count: the block strategy without timeout must never drop"
 			}
 		}
